@@ -720,6 +720,12 @@ Fixpoint dk (i : instr) : Prop :=
   | IVar v => vok v = true
   | ILocal n lv => (forall v, lv <> LVariable v) /\ exists lv', lenv_get n e = Some lv' /\ lref lv lv'
   | IAnonFn ps body ret => forall m, recreate powf m sc e (IAnonFn ps body ret) <> Panic
+  | IMatch x arms =>      (* only the `match` planted by `$+` / `$*` occurs in an expression *)
+      forall m, match recreate powf m sc e (IMatch x arms) with
+                | Ok (_, e'') => e'' = e
+                | Panic => False
+                | _ => True
+                end
   | IArray es et => dkl es /\ exists ts, rtl_def es = Ok ts /\ et = join_all ts
   | IArrayRepeat v len => dk v /\ dk len /\ exists T, rt v = Ok T
   | ITuple es => dkl es /\ exists ts, rtl_def es = Ok ts
@@ -786,6 +792,14 @@ Proof.
   destruct m as [|m]; [discriminate|]. rewrite rec_anonfn. intros H.
   apply obind_ok in H. destruct H as [[b' e0] [_ H]]. injection H as <- <-.
   split; [reflexivity|discriminate].
+Qed.
+
+Lemma rec_match_shape m x arms i' e'' :
+  recreate powf m sc e' (IMatch x arms) = Ok (i', e'') -> forall v, i' <> IVar v.
+Proof.
+  destruct m as [|m]; [discriminate|]. rewrite rec_match. intros H.
+  apply obind_ok in H. destruct H as [[x' e0] [_ H]].
+  apply obind_ok in H. destruct H as [[a' e1] [_ H]]. injection H as <- _. discriminate.
 Qed.
 
 Section Level.
@@ -863,6 +877,11 @@ Proof.
     destruct lv'; cbn [obind]; try (split; [reflexivity|apply Inv_nonvar; discriminate]).
     split; [reflexivity|]. intros v' Ev. injection Ev as <-.
     destruct (L v eq_refl) as [Vv Hv]. split; [exact Vv|]. exists (lvar_type lv). split; [reflexivity|exact Hv].
+  - (* IMatch *)
+    pose proof (D (S n)) as NP.
+    destruct (recreate powf (S n) sc e' (IMatch i arms)) as [[i' e'']| | |] eqn:E;
+      try exact I; [|contradiction].
+    split; [exact NP|apply Inv_nonvar, (rec_match_shape _ _ _ _ _ E)].
   - (* IMut *)
     rewrite rec_mut. apply rgood_bind with (P := Inv i); [apply IH, D|]. intros x' _.
     split; [reflexivity|apply Inv_nonvar; discriminate].
@@ -1344,6 +1363,69 @@ Proof.
 Qed.
 
 End Sim.
+(* ---------- reduce.rs::plant: the calls `$+` / `$*` are replaced by ---------- *)
+Lemma plant_call_dk powf sc er f y :
+  wf_fun_val f = true -> dk powf sc er y -> rt_ok y -> dk powf sc er (plant_call f y).
+Proof.
+  intros Hfv D Ry. destruct f; try discriminate Hfv. unfold plant_call.
+  rewrite dk_bin. split; [exact Hfv|]. split; [rewrite dk_tuple; split; [split; [exact D|exact I]|]|].
+  - apply rtl_of_forall. constructor; [exact Ry|constructor].
+  - destruct (rt_ok_tuple [y]) as [tt [Ett Wtt]]; [constructor; [exact Ry|constructor]|].
+    exists (TFun ps r), tt. split; [reflexivity|]. split; [exact Ett|]. split; [exact Hfv|].
+    split; [exact Wtt|]. cbn [fold_guard]. discriminate.
+Qed.
+
+Lemma planted_arms_good powf sc er m adm :
+  (forall kf, In kf adm -> wf_ty (fst kf) = true /\ wf_fun_val (snd kf) = true) ->
+  rgood er (fun _ => True)
+    (ra_def (recreate powf m sc)
+       (map (fun kf : ty * value => ArmType n_plant (fst kf)
+               (plant_call (snd kf) (ILocal n_plant (LOther (fst kf))))) adm) er).
+Proof.
+  induction adm as [|[k f] adm IH]; intros Hall; [split; [reflexivity|exact I]|].
+  destruct (Hall (k, f) (or_introl eq_refl)) as [Wk Wf]. cbn [fst snd] in Wk, Wf.
+  cbn [map fst snd].
+  change (ra_def (recreate powf m sc) (?a :: ?l) er) with
+    (obind (rarm_def (recreate powf m sc) er a) (fun '(a', e0) =>
+     obind (ra_def (recreate powf m sc) l e0) (fun '(l', e0) => Ok (a' :: l', e0)))).
+  apply rgood_bind with (P := fun _ => True).
+  - cbn [rarm_def].
+    apply rgood_bind_any with (er2 := lenv_insert n_plant (LOther k) (lenv_push er))
+                              (P := Inv (plant_call f (ILocal n_plant (LOther k)))).
+    + apply rec_good. apply plant_call_dk; [exact Wf| |apply rt_ok_local; exact Wk].
+      split; [discriminate|]. exists (LOther k). split; [|apply lref_other].
+      rewrite lenv_get_insert. rewrite ident_eqb_refl. reflexivity.
+    + intros b' e0 _. split; [reflexivity|exact I].
+  - intros a' _. apply rgood_bind with (P := fun _ => True).
+    + apply IH. intros kf Hin. apply Hall. right. exact Hin.
+    + intros l' _. split; [reflexivity|exact I].
+Qed.
+
+Lemma plant_reducer_dk powf sc er rs yi yt i :
+  wf_reds rs = true -> dk powf sc er yi -> rt_ok yi ->
+  plant_reducer rs yi yt = Ok i -> dk powf sc er i.
+Proof.
+  intros Wr D Ry H. unfold plant_reducer in H.
+  assert (Hall : forall kf, In kf rs -> wf_ty (fst kf) = true /\ wf_fun_val (snd kf) = true).
+  { intros kf Hin. destruct rs as [|kf0 rs]; [destruct Hin|]. unfold wf_reds in Wr.
+    rewrite forallb_forall in Wr. apply andb_true_iff, Wr, Hin. }
+  assert (Hsub : forall kf, In kf (filter (fun kf => matches (fst kf) yt) rs) -> In kf rs).
+  { intros kf Hin. apply filter_In in Hin. apply Hin. }
+  destruct (filter (fun kf => matches (fst kf) yt) rs) as [|[k f] [|kf2 l]] eqn:E.
+  - destruct rs as [|[k f] rs]; [discriminate H|]. injection H as <-.
+    apply plant_call_dk; [apply (Hall (k, f)); left; reflexivity|exact D|exact Ry].
+  - injection H as <-.
+    apply plant_call_dk; [apply (Hall (k, f)), Hsub; left; reflexivity|exact D|exact Ry].
+  - injection H as <-. intros m. destruct m as [|m]; [exact I|]. rewrite rec_match.
+    pose proof (rec_good powf sc er m yi D) as G.
+    destruct (recreate powf m sc er yi) as [[x' e0]| | |]; cbn [obind rgood] in *; try exact G.
+    destruct G as [-> _].
+    pose proof (planted_arms_good powf sc er m ((k, f) :: kf2 :: l)
+                  (fun kf Hin => Hall kf (Hsub kf Hin))) as Ga.
+    destruct (ra_def (recreate powf m sc) _ er) as [[a' e1]| | |]; cbn [obind rgood] in *; try exact Ga.
+    apply Ga.
+Qed.
+
 (* ================================================================= *)
 (* 9. expressions: what the checker builds is [dk] for the pass        *)
 (* ================================================================= *)
@@ -1564,9 +1646,10 @@ Proof.
         split; [exact Wtt|]. cbn [fold_guard]. discriminate. }
     pose proof Wred as Wr0. unfold wf_red in Wr0. andb_split Wr0.
     destruct op; try discriminate Wx;
-      match type of H with (if ?c then _ else _) = _ => destruct c; [|discriminate H] end;
-      injection H as <-; first [apply Plant; assumption|idtac].
-    all: try (rewrite dk_un; split; [exact D|]; exists yt; split; [assumption|exact I]).
+      match type of H with (if ?c then _ else _) = _ => destruct c; [|discriminate H] end.
+    1-4: injection H as <-; apply Plant; assumption.
+    1-2: eapply plant_reducer_dk; [|exact D|exact Ryi|exact H]; assumption.
+    all: injection H as <-; rewrite dk_un; split; [exact D|]; exists yt; split; [assumption|exact I].
 Qed.
 End DkStep.
 
